@@ -15,8 +15,8 @@ namespace detail {
 template <etl::size_t Capacity, typename Int>
 constexpr auto to_string(Int val) -> etl::inplace_string<Capacity>
 {
-    char buffer[Capacity]{};
-    auto const res = etl::strings::from_integer<Int>(val, etl::data(buffer), Capacity, 10);
+    char buffer[Capacity + 1]{};
+    auto const res = etl::strings::from_integer<Int>(val, etl::data(buffer), Capacity + 1, 10);
     TETL_PRECONDITION(res.error == etl::strings::from_integer_error::none);
     return etl::inplace_string<Capacity>{etl::data(buffer), res.end};
 }
